@@ -165,6 +165,9 @@ func isDecType(t types.Type) bool {
 
 // intRange returns the value range of a Go integer type (nil,nil for non-integers).
 func intRange(t types.Type) (lo, hi *Term) {
+	if t == nil {
+		return nil, nil
+	}
 	b, ok := types.Unalias(t).Underlying().(*types.Basic)
 	if !ok || b.Info()&types.IsInteger == 0 {
 		return nil, nil
